@@ -1,7 +1,7 @@
 //! C03 — prediction is a per-sample function, identical through every calling form.
 //!
 //! One sub-check per predictor type. Each case fits a small model on generated, well-posed data
-//! (seeded), builds a query batch (training rows, fresh rows, duplicates; 0, 1 or 2..=12 rows) and
+//! (seeded), builds a query batch (training rows, fresh rows, duplicates; 0, 1 or 2..=12 rows, thorough up to 40) and
 //! hands both to the generic oracle in `driver`, which compares
 //!   * the batch, a permutation of it and a recomposition with repeated / omitted rows against the
 //!     prediction of each row alone,
@@ -41,7 +41,7 @@ pub fn property() -> Property {
         id: "C03",
         rule: "one sub-check per predictor type (22 types incl. the three composing wrappers); a case = generated training \
                matrix (n 12..=40, p 1..=4, SVM n<=30, isotonic p=1, multinomial NB counts), direction vectors and noise from \
-               which targets/labels/blobs are derived, model options, RNG seed, and a query batch of m in {0,1,2..=12} rows \
+               which targets/labels/blobs are derived, model options, RNG seed, and a query batch of m in {0,1,2..=12} rows (thorough: ..=40) \
                drawn from training rows, fresh rows (scaled beyond the training range) and duplicates, plus permutation keys \
                and a recomposition index list. Reference = prediction of each row alone; compared with the batch, its \
                permutation, a recomposition with repeats, 3 owned and 5 borrowed memory layouts, five calling forms on each. \
@@ -52,6 +52,7 @@ pub fn property() -> Property {
             format!("REL_TOL_F32 = {:e} (two f32 ulps) replaces REL_TOL for Pr outputs (FTRL, Platt) whose f64 score is rounded to f32", driver::REL_TOL_F32),
             "bit-exact comparisons: k-means, decision tree, isotonic, all four SVM kinds (row loops with sequential sums) in every layout; matrix-vector models batch-vs-single-row / permutation / recomposition within standard layout; the five calling forms on one array for every model".into(),
             "labels must agree exactly unless the model's own margin for that row is a tie: GMM |responsibility difference| <= 1e-9 (from predict_proba), logistic |sigmoid(score)-threshold| and multinomial logit gaps <= 1e-9 relative (recomputed from public params), naive Bayes joint log-likelihood gaps <= 1e-9 relative (recomputed from the training data; exact ties are broken by HashMap order inside linfa), MultiClassModel member probabilities within 2.5e-7".into(),
+            format!("fits driven by argmin's unbounded More-Thuente line search (Tweedie GLM, logistic regressions) run on a helper thread with a {} s wall-clock deadline; a fit that does not return (observed: Poisson GLM, a consequence of its inconsistent deviance/gradient) is counted as not judged (class skipped_fit_did_not_terminate) — the deadline can never produce a failure", util::FIT_DEADLINE_S),
             "a fit that returns Err or panics is counted as not judged (fitting is the subject of C04/C09-C18); a fitted model with non-finite parameters or non-finite single-row predictions likewise".into(),
             "independent references use naive f64 code with tolerance 1e-10*(1+|a|+|b|+scale); FTRL/Platt probabilities (f32) are compared with absolute 1e-6 / 3e-6".into(),
             "Platt A and B are recovered by calling the public platt_newton_method on the same inputs fit_with uses; monotonicity allows 4 f32 ulps because e/(1+e) evaluated in f32 is not exactly monotone".into(),
